@@ -191,7 +191,8 @@ pub fn sparse(idx: u64) -> LargeAdf {
             },
         });
     }
-    let ring_idx = idx / 6;
+    // operators of the open ring: spread over all 10^7 combinations (small indices must not mean constant conditions)
+    let ring_idx = crate::report::hash64(&(idx / 6).to_le_bytes()) % 10_000_000;
     let mut ri = ring_idx;
     for j in 0..open {
         let i = back + j;
